@@ -45,4 +45,23 @@ example :
     hiddenAmbiguities Eex [[.one ⟨true, .cls 3⟩, .one ⟨true, .any⟩], [.one ⟨true, .any⟩, .one ⟨true, .cls 3⟩],
       [.one ⟨true, .cls 3⟩, .one ⟨true, .cls 3⟩]] = [] := by decide
 
+/-- leaf 0 = object, 3 = an op class, 10 = Funsor, 11 = Number, 12 = Tensor (funsor classes below Funsor) -/
+def Eex2 : Env :=
+  { L := fun a b => a == b || b == 0 || (b == 10 && (a == 11 || a == 12)), kTuple := 1, kFs := 2,
+    isFn := fun k => k ≥ 10, raisesNonClass := fun _ => true, kVar := 99 }
+
+/-- The observation of the C16_2 seeding agent, in the model: a *top-level* `Union[Number, Tensor]`
+    pattern is wrapped by `typing_wrap`, and `issubclass(typing_wrap[Union[..]], Funsor)` is False although
+    `Union[Number, Tensor] ≤ Funsor` in `deep_issubclass`; so `(Op, Union[Number,Tensor], Funsor)` and
+    `(Op, Funsor, Funsor)` are mutually non-superseding.  No live registry contains such an element
+    (`reg_no_toplevel_union`); if one is registered next to a bare-class pattern, `hiddenAmbiguities`
+    reports the pair and `reg_no_unlisted_ambiguity` breaks. -/
+theorem toplevel_union_pattern_is_flagged :
+    sub Eex2 true (.union [.fn 11 [], .fn 12 []]) (.fn 10 []) = true ∧
+    supercedes Eex2 [.one ⟨true, .cls 3⟩, .one ⟨true, .union [.fn 11 [], .fn 12 []]⟩, .one ⟨false, .fn 10 []⟩]
+                    [.one ⟨true, .cls 3⟩, .one ⟨false, .fn 10 []⟩, .one ⟨false, .fn 10 []⟩] = false ∧
+    hiddenAmbiguities Eex2
+      [[.one ⟨true, .cls 3⟩, .one ⟨true, .union [.fn 11 [], .fn 12 []]⟩, .one ⟨false, .fn 10 []⟩],
+       [.one ⟨true, .cls 3⟩, .one ⟨false, .fn 10 []⟩, .one ⟨false, .fn 10 []⟩]] = [(0, 1)] := by decide
+
 end FV.Props.C16
